@@ -573,7 +573,7 @@ Proof.
     tstep (sub_loop_total (fun _ => True) one (fun _ _ _ => I) Hone (S (N.to_nat n)) s []
              ltac:(rewrite Ls, Es; cbn [uoff]; lia) I ltac:(rewrite Ls, Es; cbn [uoff]; lia)) kvs El.
     cbn [good snd]. destruct G0 as [E0 H0]. rewrite Ec3, E0 in *. cbn [set_off ubuf uoff] in *. split; [reflexivity|lia].
-  - rewrite unmarshal_t_var_eq. cbn [ewf evars] in Hwf, Hvf.
+  - rewrite unmarshal_t_var_eq'. cbn [ewf evars] in Hwf, Hvf.
     pose proof (u_read_sig_moved c Hc) as G. destruct (u_read_sig c) as [r| | | |]; cbn [bind]; try exact G.
     destruct G as [[E1 H1] H1'].
     destruct (parse_description (fst r)) as [tys| | | |] eqn:Ep; try exact I.
@@ -582,16 +582,16 @@ Proof.
     pose proof (u_align_moved (align t') (snd r) Hc1) as G2.
     destruct (u_align (align t') (snd r)) as [c1| | | |]; cbn [bind]; try exact G2. destruct G2 as [E2 H2].
     assert (Hc2 : uoff c1 <= len (ubuf c1)) by (rewrite E2; cbn [set_off ubuf uoff]; lia).
-    destruct (u_enter c1) as [c2| | | |] eqn:Een; cbn [bind]; try (unfold u_enter in Een; destruct (_ <=? _); discriminate).
-    2: exact I.
-    gstep (validate_good be 66 t' (udepth c2) (uoff c1) (ubuf c1) (type_ok_wf _ Htok) Hc2 ltac:(lia) ltac:(cbn; lia)) n Ev Gv.
+    destruct (N.leb_spec MAX_DEPTH (udepth c1)) as [|Hd1]; [exact I|].
+    gstep (validate_good be 66 t' (udepth c1 + 1) (uoff c1) (ubuf c1) (type_ok_wf _ Htok) Hc2 ltac:(lia) ltac:(cbn; lia)) n Ev Gv.
     destruct Gv as [Hn1 Hn2].
-    unfold u_sub, remainder_len. destruct (N.ltb_spec (len (ubuf c1) - uoff c1) n); [exact I|]. cbn [bind fst snd].
+    unfold u_sub, remainder_len. cbn [ubuf uoff unfds udepth].
+    destruct (N.ltb_spec (len (ubuf c1) - uoff c1) n); [exact I|]. cbn [bind fst snd].
     destruct (ty_eqb t' (erase x)); [|exact I].
-    set (s := {| ubuf := firstnN (uoff c1 + n) (ubuf c1); uoff := uoff c1; unfds := unfds c1; udepth := udepth c1 |}).
+    set (s := {| ubuf := firstnN (uoff c1 + n) (ubuf c1); uoff := uoff c1; unfds := unfds c1; udepth := udepth c1 + 1 |}).
     assert (Hs : uoff s <= len (ubuf s)) by (unfold s; cbn [ubuf uoff]; rewrite len_firstnN_le; lia).
     gstep (IHvf x s Hwf Hs ltac:(lia)) y Ey Gy. cbn [good snd].
-    rewrite E2, E1 in *. cbn [set_off ubuf uoff] in *. split; [reflexivity|lia].
+    rewrite E2, E1 in *. unfold u_leave, set_off in *. cbn [ubuf uoff unfds udepth] in *. split; [f_equal; lia|lia].
 Qed.
 
 Theorem unmarshal_t_total be vf e c :
